@@ -187,17 +187,16 @@ def SLOPE(*yx):
     ys = list(ys)
     xs = list(xs)
 
+    # deviations from the means, not n*sum(x*x) - sum(x)**2: for x far from the origin
+    # (years, serials, timestamps) that difference of two huge numbers keeps no digits
     n = len(ys)
-    sum_x = sum(xs)
-    sum_y = sum(ys)
-    sum_x_sq = sum(x ** 2 for x in xs)
-    sum_xy = sum(x * y for x, y in zip(xs, ys))
-
-    denominator = (n * sum_x_sq) - (sum_x ** 2)
+    mean_x = sum(xs) / n
+    mean_y = sum(ys) / n
+    denominator = sum((x - mean_x) ** 2 for x in xs)
     if denominator == 0:
         return error.DIV_ZERO
 
-    slope = ((n * sum_xy) - (sum_x * sum_y)) / denominator
+    slope = sum((x - mean_x) * (y - mean_y) for x, y in zip(xs, ys)) / denominator
     return slope
 
 
